@@ -467,7 +467,8 @@ func checkC03(c *Ctx) {
 			}
 		}
 		// files that begin with comments, closed or not, before or instead of a package clause
-		for _, raw := range []string{"/* never closed", "/*", "/* a */", "/* a */ package main", "// c\n/* open", "//go:build goat\n\n/* open", "/* open\n//go:build goat\n", "/**/", "/* x */ /* y", "\n\n/* late open",
+		for _, raw := range []string{"var (", "var (\n\tx = 1", "var (\n\tx int\n", "const (", "const (\n\ta = iota", "const (\n\ta = iota\n\tb\n", "import (", "import (\n\t\"fmt\"", "type (", "type T struct {", "type T struct {\n\tA int", "var x = [", "var x = map[string]int{", "func f(", "func f() (", "func (t *T", "x := []int{1,", "switch x {\ncase 1,", "for i := 0; i <", "if x := 1;", "return", "package", "var", "const", "type", "import", "func",
+			"/* never closed", "/*", "/* a */", "/* a */ package main", "// c\n/* open", "//go:build goat\n\n/* open", "/* open\n//go:build goat\n", "/**/", "/* x */ /* y", "\n\n/* late open",
 			"//", "//go:build", "//go:build !goat", "// +build ignore", "/* a */\n//go:build ignore\npackage main", "package main /* open", "package main\n/* open"} {
 			raw := raw
 			s.loadOnce(map[string]string{"main/main.go": raw}, "main", nil)
